@@ -128,6 +128,11 @@ Theorem C14_overloads :
       map (fun d => format_function_def name (fd_async prim) false (Some (sig_of d))) ovs.
 Proof. exact overloads_then_primary. Qed.
 
+(* a definition is an overload as soon as ANY of its decorators is typing.overload -- above or below
+   @staticmethod / @classmethod / other decorators *)
+Theorem C14_overload_detection : forall decos : list bool, is_overload_func decos = true <-> In true decos.
+Proof. exact is_overload_func_any. Qed.
+
 (* only overloads (stub files) *)
 Theorem C14_overloads_only :
   forall name ovs,
